@@ -217,7 +217,10 @@ class Machine(object):
         def shutdown(pool):
             m.mark_installed()
             if id(pool) not in m.shutdowns and not pool.is_shutdown:
-                cur = pool.get_connections() if hasattr(pool, "get_connections") else []
+                try:
+                    cur = pool.get_connections()
+                except AttributeError:
+                    cur = []
                 m.shutdowns[id(pool)] = dict(pool=pool, t=m.sim.world.now, current=list(cur or []),
                                              trash=list(pool._trash), by=_pool_caller(),
                                              installed_before=[c for c in m.net.conns if getattr(c, "seen_installed", False)])
@@ -297,7 +300,11 @@ class Machine(object):
 
     def mark_installed(self):
         for p in self.pools:
-            for c in list(p.get_connections() or []) + list(getattr(p, "_trash", ())):
+            try:
+                cur = list(p.get_connections() or [])
+            except AttributeError:      # a HostConnectionPool still inside its __init__
+                cur = []
+            for c in cur + list(getattr(p, "_trash", ())):
                 c.seen_installed = True
 
     def pooled_conns(self):
